@@ -46,7 +46,7 @@ fn main() {
         let opname = if toks.first() == Some(&"call") || toks.first() == Some(&"init") {
             toks.iter().take(2).cloned().collect::<Vec<_>>().join(" ")
         } else {
-            toks.first().cloned().unwrap_or("").to_string()
+            toks.iter().find(|t| !t.chars().all(|c| c.is_ascii_digit())).cloned().unwrap_or("").to_string()
         };
         *op_mix.entry(opname).or_insert(0) += 1;
     };
